@@ -67,17 +67,23 @@ func insertIntoRoot(part []byte, fragment []byte, offset int) ([]byte, bool) {
 		out = append(out, fragment...)
 		return append(out, part[offset:]...), true
 	}
-	end := bytes.LastIndex(part, []byte("</"))
-	if end >= 0 {
+	end, selfClosing, ok := rootEndTag(part)
+	if !ok {
+		return part, false
+	}
+	if !selfClosing {
 		out := make([]byte, 0, len(part)+len(fragment))
 		out = append(out, part[:end]...)
 		out = append(out, fragment...)
 		return append(out, part[end:]...), true
 	}
-	// 自闭合的根元素：<w:numbering .../>
-	selfClose := bytes.LastIndex(part, []byte("/>"))
-	start := bytes.LastIndex(part[:maxInt(selfClose, 0)], []byte("<"))
-	if selfClose < 0 || start < 0 {
+	// 自闭合的根元素：<w:numbering .../>（end 指向 "/>" 之后）
+	selfClose := end - 2
+	if selfClose < 0 || !bytes.Equal(part[selfClose:end], []byte("/>")) {
+		return part, false
+	}
+	start := bytes.LastIndex(part[:selfClose], []byte("<"))
+	if start < 0 {
 		return part, false
 	}
 	nameEnd := start + 1
@@ -92,14 +98,34 @@ func insertIntoRoot(part []byte, fragment []byte, offset int) ([]byte, bool) {
 	out = append(out, '<', '/')
 	out = append(out, name...)
 	out = append(out, '>')
-	return append(out, part[selfClose+2:]...), true
+	return append(out, part[end:]...), true
 }
 
-func maxInt(a, b int) int {
-	if a > b {
-		return a
+// rootEndTag 返回根元素结束标签的起始字节偏移。根元素自闭合时 selfClosing 为 true，
+// offset 指向 "/>" 之后。按标记扫描而不是查找最后一个 "</"：根元素之后还可以有注释、
+// 处理指令和空白（注释里也可以出现 "</"），结束标签的 ">" 之前也可以有空白。
+func rootEndTag(part []byte) (offset int, selfClosing bool, ok bool) {
+	decoder := xml.NewDecoder(bytes.NewReader(part))
+	depth := 0
+	for {
+		before := int(decoder.InputOffset())
+		token, err := decoder.RawToken()
+		if err != nil {
+			return 0, false, false
+		}
+		switch token.(type) {
+		case xml.StartElement:
+			depth++
+		case xml.EndElement:
+			depth--
+			if depth == 0 {
+				return before, int(decoder.InputOffset()) == before, true
+			}
+			if depth < 0 {
+				return 0, false, false
+			}
+		}
 	}
-	return b
 }
 
 // bindWordNamespace 在片段的根元素上声明 w 前缀，使片段可以插入到使用其他前缀的部件中
